@@ -157,83 +157,99 @@ def strLoopEnd : Bytes := [108, 111, 111, 112, 101, 110, 100]                   
 
 def invalidEv : Ev := { valid := false }
 
+/-- SysEx (F0 / F7): length, payload -/
+def parseSysEx (byte : Nat) (rest : Bytes) (status : Int) (ps : ParseSt) : Ev × Bytes × Int × ParseSt :=
+  match readVarLen rest 0 with
+  | (none, r) => (invalidEv, r, status, ps)
+  | (some len, r) =>
+    if len > r.length then (invalidEv, r, status, ps)
+    else ({ type := tSysEx, data := byte :: r.take len }, r.drop len, status, ps)
+
+/-- what a meta event becomes once its type and payload are known (loop markers are recognised here) -/
+def metaEvent (evtype : Nat) (data : Bytes) (status : Int) : Ev × Int :=
+  let ev : Ev := { type := tSpecial, subtype := evtype, data := data }
+  let low := data.map lowerAZ
+  if evtype == stMarker && low == strLoopStart then ({ ev with subtype := stLoopStart, data := [] }, status)
+  else if evtype == stMarker && low == strLoopEnd then ({ ev with subtype := stLoopEnd, data := [] }, status)
+  else if evtype == stMarker && low.take 10 == strLoopStart ++ [61] then
+    ({ ev with subtype := stStackBegin, data := [atoi8 (low.drop 10)] }, status)
+  else if evtype == stMarker && low.take 8 == strLoopEnd ++ [61] then
+    ({ ev with subtype := stStackEnd, data := [] }, status)
+  else (ev, if evtype == stEndTrack then -1 else status)
+
+/-- meta event (FF): type, length, payload -/
+def parseMeta (rest : Bytes) (status : Int) (ps : ParseSt) : Ev × Bytes × Int × ParseSt :=
+  match rest with
+  | [] => (invalidEv, [], status, ps)
+  | evtype :: r0 =>
+    match readVarLen r0 0 with
+    | (none, r) => (invalidEv, r, status, ps)
+    | (some len, r) =>
+      if len > r.length then (invalidEv, r, status, ps)
+      else
+        let (ev, status') := metaEvent evtype (r.take len) status
+        (ev, r.drop len, status', ps)
+
+/-- the controller special cases of the two formats (loop points, EMIDI volume, XMI loops and triggers) -/
+def ctrlEvent (ev : Ev) (a b : Nat) (ps : ParseSt) : Ev × ParseSt :=
+  match ps.fmt with
+  | .midi =>
+    if a == 110 then
+      if ps.loopFormat == 0 then ({ ev with type := tSpecial, subtype := stLoopStart, data := [] }, { ps with loopFormat := 3 })
+      else if ps.loopFormat == 3 then (ev, { ps with loopFormat := 2 })
+      else (ev, ps)
+    else if a == 111 then
+      if ps.loopFormat == 3 then ({ ev with type := tSpecial, subtype := stLoopEnd, data := [] }, ps)
+      else if ps.loopFormat != 2 then ({ ev with type := tSpecial, subtype := stLoopStart, data := [] }, ps)
+      else (ev, ps)
+    else if a == 113 then
+      if ps.loopFormat == 2 then ({ ev with data := [7, b] }, ps) else (ev, ps)
+    else (ev, ps)
+  | .xmidi =>
+    if a == 116 then ({ ev with type := tSpecial, subtype := stStackBegin, data := [b] }, ps)
+    else if a == 117 then ({ ev with type := tSpecial, subtype := if b < 64 then stStackBreak else stStackEnd, data := [] }, ps)
+    else if a == 119 then ({ ev with type := tSpecial, subtype := stCallback, data := [b] }, ps)
+    else (ev, ps)
+
+/-- channel and system-common events once the status byte is known (`rest` starts at the first data byte) -/
+def parseChannel (byte : Nat) (rest : Bytes) (status : Int) (ps : ParseSt) : Ev × Bytes × Int × ParseSt :=
+  if byte == tSongSel then
+    match rest with
+    | a :: r => ({ type := byte, data := [a] }, r, status, ps)
+    | _ => (invalidEv, rest, status, ps)
+  else if byte == tSongPos then
+    match rest with
+    | a :: b :: r => ({ type := byte, data := [a, b] }, r, status, ps)
+    | _ => (invalidEv, rest, status, ps)
+  else
+    let midCh := byte % 16
+    let evType := byte / 16 % 16
+    let status' : Int := byte
+    if evType == tNoteOff || evType == tNoteOn || evType == tNoteTouch || evType == tCtrl || evType == tWheel then
+      match rest with
+      | a :: b :: r =>
+        let ev : Ev := { type := evType, channel := midCh, data := [a, b] }
+        if evType == tNoteOn && b == 0 then ({ ev with type := tNoteOff }, r, status', ps)
+        else if evType == tCtrl then
+          let (ev', ps') := ctrlEvent ev a b ps
+          (ev', r, status', ps')
+        else (ev, r, status', ps)
+      | _ => (invalidEv, rest, status', ps)
+    else if evType == tPatch || evType == tChanAT then
+      match rest with
+      | a :: r => ({ type := evType, channel := midCh, data := [a] }, r, status', ps)
+      | _ => (invalidEv, rest, status', ps)
+    else ({ type := evType, channel := midCh }, rest, status', ps)
+
 /-- parseEvent.  Returns the event, the rest of the track, the running status and the parser state. -/
 def parseEvent (bs : Bytes) (status : Int) (ps : ParseSt) : Ev × Bytes × Int × ParseSt :=
   match bs with
   | [] => ({ type := tSpecial, subtype := stEndTrack }, [], status, ps)
   | byte :: rest =>
-    if byte == tSysEx || byte == tSysEx2 then
-      match readVarLen rest 0 with
-      | (none, r) => (invalidEv, r, status, ps)
-      | (some len, r) =>
-        if len > r.length then (invalidEv, r, status, ps)
-        else ({ type := tSysEx, data := byte :: r.take len }, r.drop len, status, ps)
-    else if byte == tSpecial then
-      match rest with
-      | [] => (invalidEv, [], status, ps)
-      | evtype :: r0 =>
-        match readVarLen r0 0 with
-        | (none, r) => (invalidEv, r, status, ps)
-        | (some len, r) =>
-          if len > r.length then (invalidEv, r, status, ps)
-          else
-            let data := r.take len
-            let r' := r.drop len
-            let ev : Ev := { type := tSpecial, subtype := evtype, data := data }
-            let low := data.map lowerAZ
-            if evtype == stMarker && low == strLoopStart then ({ ev with subtype := stLoopStart, data := [] }, r', status, ps)
-            else if evtype == stMarker && low == strLoopEnd then ({ ev with subtype := stLoopEnd, data := [] }, r', status, ps)
-            else if evtype == stMarker && low.take 10 == strLoopStart ++ [61] then
-              ({ ev with subtype := stStackBegin, data := [atoi8 (low.drop 10)] }, r', status, ps)
-            else if evtype == stMarker && low.take 8 == strLoopEnd ++ [61] then
-              ({ ev with subtype := stStackEnd, data := [] }, r', status, ps)
-            else (ev, r', if evtype == stEndTrack then -1 else status, ps)
-    else
-      -- running status
-      let (byte, rest) := if byte < 0x80 then ((status.toNat % 256) ||| 0x80, bs) else (byte, rest)
-      if byte == tSongSel then
-        match rest with
-        | a :: r => ({ type := byte, data := [a] }, r, status, ps)
-        | _ => (invalidEv, rest, status, ps)
-      else if byte == tSongPos then
-        match rest with
-        | a :: b :: r => ({ type := byte, data := [a, b] }, r, status, ps)
-        | _ => (invalidEv, rest, status, ps)
-      else
-        let midCh := byte % 16
-        let evType := byte / 16 % 16
-        let status' : Int := byte
-        if evType == tNoteOff || evType == tNoteOn || evType == tNoteTouch || evType == tCtrl || evType == tWheel then
-          match rest with
-          | a :: b :: r =>
-            let ev : Ev := { type := evType, channel := midCh, data := [a, b] }
-            if evType == tNoteOn && b == 0 then ({ ev with type := tNoteOff }, r, status', ps)
-            else if evType == tCtrl then
-              match ps.fmt with
-              | .midi =>
-                if a == 110 then
-                  if ps.loopFormat == 0 then ({ ev with type := tSpecial, subtype := stLoopStart, data := [] }, r, status', { ps with loopFormat := 3 })
-                  else if ps.loopFormat == 3 then (ev, r, status', { ps with loopFormat := 2 })
-                  else (ev, r, status', ps)
-                else if a == 111 then
-                  if ps.loopFormat == 3 then ({ ev with type := tSpecial, subtype := stLoopEnd, data := [] }, r, status', ps)
-                  else if ps.loopFormat != 2 then ({ ev with type := tSpecial, subtype := stLoopStart, data := [] }, r, status', ps)
-                  else (ev, r, status', ps)
-                else if a == 113 then
-                  if ps.loopFormat == 2 then ({ ev with data := [7, b] }, r, status', ps) else (ev, r, status', ps)
-                else (ev, r, status', ps)
-              | .xmidi =>
-                if a == 116 then ({ ev with type := tSpecial, subtype := stStackBegin, data := [b] }, r, status', ps)
-                else if a == 117 then ({ ev with type := tSpecial, subtype := if b < 64 then stStackBreak else stStackEnd, data := [] }, r, status', ps)
-                else if a == 119 then ({ ev with type := tSpecial, subtype := stCallback, data := [b] }, r, status', ps)
-                else (ev, r, status', ps)
-            else (ev, r, status', ps)
-          | _ => (invalidEv, rest, status', ps)
-        else if evType == tPatch || evType == tChanAT then
-          match rest with
-          | a :: r => ({ type := evType, channel := midCh, data := [a] }, r, status', ps)
-          | _ => (invalidEv, rest, status', ps)
-        else ({ type := evType, channel := midCh }, rest, status', ps)
+    if byte == tSysEx || byte == tSysEx2 then parseSysEx byte rest status ps
+    else if byte == tSpecial then parseMeta rest status ps
+    else if byte < 0x80 then parseChannel ((status.toNat % 256) ||| 0x80) bs status ps      -- running status: the byte is data
+    else parseChannel byte rest status ps
 
 /-! ## MidiTrackRow::sortEvents -/
 
